@@ -36,8 +36,10 @@ func VerifBuildJPEG(k int) (in []byte, sof []byte) {
 	return in, sof
 }
 
+var verifC05K = 3
+
 func VerifHarness_C05_JPEG() {
-	k := verifChoice(3)
+	k := verifChoice(verifC05K)
 	in, sof := VerifBuildJPEG(k)
 	md, _, err := Load(bytes.NewReader(in))
 	verifAssert(err == nil, "well-formed JPEG rejected")
@@ -51,4 +53,20 @@ func VerifHarness_C05_JPEG() {
 	verifAssert(md.Format == "JPEG", "JPEG Format = JPEG")
 	data, perr := md.ICCProfileData()
 	verifAssert(verifAnd(data == nil, perr == nil), "JPEG without ICC segments: profile must be (nil, nil)")
+}
+
+// VerifBuildJPEGTwoSOF: SOI, a well-formed SOF0, then a second frame header (SOF0/SOF2)
+// whose declared length (symbolic, 2..8) may leave fewer than the 5 bytes the parser
+// indexes, then SOS. The second header makes the parser panic internally after basic
+// metadata has already been extracted.
+func VerifBuildJPEGTwoSOF() []byte {
+	in := []byte{0xff, 0xd8, 0xff, 0xc0, 0, 11}
+	in = append(in, verifBytes(9)...)
+	m := verifU8()
+	verifAssume(verifOr(m == 0xc0, m == 0xc2))
+	n := verifChoice(7) // payload bytes 0..6
+	in = append(in, 0xff, m, 0, byte(n+2))
+	in = append(in, verifBytes(n)...)
+	in = append(in, 0xff, 0xda, 0, 2)
+	return in
 }
